@@ -331,7 +331,7 @@ SRT_ACK_ENSURES = [
     C('C02.acct.handle_srt_ack.nothing_at_or_below_ack_remains', '''old(self).above_hw() ==> final(self).above_hw()
             && (ack != i32::MIN ==> forall|k: i32| (#[trigger] final(self).packet_log@.contains_key(k)) ==> k > ack)'''),
     C('C02.acct.handle_srt_ack.never_adds', 'forall|k: i32| (#[trigger] final(self).packet_log@.contains_key(k)) ==> old(self).packet_log@.contains_key(k)'),
-    C('C06+C02.acct.handle_srt_ack.frame', 'final(self).same_except_log_rtt(old(self))'),
+    C('C02+C06+C09+C13.acct.handle_srt_ack.frame_delivery_proof_and_window_untouched', 'final(self).same_except_log_rtt(old(self))'),
 ]
 SRT_ACK_LOOP_INV = [
     'seq_end == ack as i64', 'pre.highest_acked_seq as i64 + 1 <= seq_nx <= seq_end + 1', 'pre.highest_acked_seq != i32::MIN',
@@ -564,11 +564,12 @@ GATE_ENSURES = [
             (#[trigger] final(conns)[i]).stall_gated == (exists_healthy(final(conns)@, current_time_ms) && (final(conns)[i].spec_latched() || final(conns)[i].silence_pulled))'''),
 ]
 _G1 = ['c_nx <= conns.len()', 'conns.len() == old(conns).len()',
-       'forall|j: int| 0 <= j < c_nx ==> (#[trigger] conns[j]).same_except_timeout(&old(conns)[j]) && conns[j].conn_timeout_ms == config.conn_timeout_ms',
+       C('C01+C12.select.apply_stall_gate.timeout_pass_writes_only_the_timeout', 'forall|j: int| 0 <= j < c_nx ==> (#[trigger] conns[j]).same_except_timeout(&old(conns)[j]) && conns[j].conn_timeout_ms == config.conn_timeout_ms'),
        'forall|j: int| c_nx <= j < conns.len() ==> #[trigger] conns[j] == old(conns)[j]']
 _G2 = ['c_nx <= conns.len()', 'conns.len() == old(conns).len()',
-       C('C10+C12.select.apply_stall_gate.guard_off_clears_every_flag_and_latch', '''forall|j: int| 0 <= j < c_nx ==> (#[trigger] conns[j]).same_except_stall_clear(&old(conns)[j]) && conns[j].conn_timeout_ms == config.conn_timeout_ms
-                && !conns[j].stall_gated && !conns[j].silence_pulled && conns[j].stall_latched_since_ms == 0 && conns[j].stall_recovery_since_ms == 0'''),
+       C('C01+C12.select.apply_stall_gate.guard_off_pass_writes_only_stall_state', 'forall|j: int| 0 <= j < c_nx ==> (#[trigger] conns[j]).same_except_stall_clear(&old(conns)[j]) && conns[j].conn_timeout_ms == config.conn_timeout_ms'),
+       C('C10+C12.select.apply_stall_gate.guard_off_clears_every_flag_and_latch', '''forall|j: int| 0 <= j < c_nx ==>
+                !(#[trigger] conns[j]).stall_gated && !conns[j].silence_pulled && conns[j].stall_latched_since_ms == 0 && conns[j].stall_recovery_since_ms == 0'''),
        'forall|j: int| c_nx <= j < conns.len() ==> (#[trigger] conns[j]).same_except_timeout(&old(conns)[j]) && conns[j].conn_timeout_ms == config.conn_timeout_ms']
 _G3 = ['c_nx <= conns.len()', 'conns.len() == old(conns).len()', 'current_time_ms > 0', 'gate_pre_ok(old(conns)@)',
        C('C12.select.apply_stall_gate.accounting_untouched', '''forall|j: int| 0 <= j < c_nx ==> old(conns)[j].same_acct(&#[trigger] conns[j]) && conns[j].conn_timeout_ms == config.conn_timeout_ms
@@ -577,8 +578,9 @@ _G3 = ['c_nx <= conns.len()', 'conns.len() == old(conns).len()', 'current_time_m
 _G4 = ['c_nx <= conns.len()', 'conns.len() == old(conns).len()', 'conns.len() == pre4.len()',
        'any_healthy == exists_healthy(pre4, current_time_ms)',
        'gate_mid_ok(old(conns)@, pre4, config.conn_timeout_ms)',
-       C('C03+C04.select.apply_stall_gate.gated_only_while_a_healthy_link_exists', '''forall|j: int| 0 <= j < c_nx ==> (#[trigger] conns[j]).same_except_gated(&pre4[j])
-                && conns[j].stall_gated == (any_healthy && (pre4[j].spec_latched() || pre4[j].silence_pulled))'''),
+       C('C01+C12.select.apply_stall_gate.final_pass_writes_only_the_gate_flag', 'forall|j: int| 0 <= j < c_nx ==> (#[trigger] conns[j]).same_except_gated(&pre4[j])'),
+       C('C03+C04.select.apply_stall_gate.gated_only_while_a_healthy_link_exists',
+         'forall|j: int| 0 <= j < c_nx ==> (#[trigger] conns[j]).stall_gated == (any_healthy && (pre4[j].spec_latched() || pre4[j].silence_pulled))'),
        'forall|j: int| c_nx <= j < conns.len() ==> #[trigger] conns[j] == pre4[j]']
 GATE_INVS = [_G1, _G2, _G3, _G4]
 GATE_SPLICES = [
@@ -593,7 +595,7 @@ GATE_SPLICES = [
                 let w = choose|i: int| 0 <= i < conns.len() && (#[trigger] conns[i]).usable(current_time_ms);
                 assert(!conns[w].stall_gated);
             }
-        }''', 'before'),
+        }''', 'before', 'first'),
     ('let c = &mut conns[c_ix];\n        c.update_silence_pull', 'let ghost before3 = conns@;\n        let c = &mut conns[c_ix];\n        let ghost c0 = *c;\n        proof { assert(c0.same_except_timeout(&old(conns)[c_ix as int])); assert(old(conns)[c_ix as int].stall_gate_events < 0x7fff_ffff_ffff_ffff); }\n        c.update_silence_pull', 'replace'),
     ('c.update_stall_latch(current_time_ms, min_in_flight, stale_ceiling_ms);', 'let ghost c1 = *c;', 'before'),
     ('c.update_stall_latch(current_time_ms, min_in_flight, stale_ceiling_ms);', '''let ghost cfin = *c;
